@@ -1,6 +1,6 @@
 """Which engines decide which property. Shared by ./check and tools/gen_manifest.py."""
 
-ALL_DRIVERS = ["arith"]
+ALL_DRIVERS = ["arith", "cross", "crossx", "prim", "primx"]
 
 COMMON_ASSUMPTIONS = [
     "the reference models (exact integer arithmetic on 384-bit integers, IEEE-754 decode/encode by integer manipulation, exact decimal rationals) are correct; they are self-tested against native arithmetic on exhaustive 8-bit domains",
@@ -14,7 +14,31 @@ ARITH_RULE = ("all 506 layouts; operands: every value of the 8-bit layouts (all 
               "operators; a state is one (layout, operand tuple), a transition one executed call compared with exact integer arithmetic; "
               "non-trivial = at least one non-zero operand and at least one judged comparison")
 
+CROSS_RULE = ("ordered (source, destination) layout pairs through the public API: all 18x18 pairs of 8-bit layouts with every source value "
+              "/ every value pair, and for each of the 100 ordered family pairs the boundary fractional-bit products (5x5 quick, 9x9 plus "
+              "all 8<->16-bit pairs thorough) with every value of 8/16-bit sources and the boundary alphabet otherwise; ")
+PRIM_RULE = ("every compiled layout (90 quick: all 8-bit layouts + boundary fractional-bit counts; all 506 thorough) against i8..i128, "
+             "isize, u8..u128, usize, bool, f32, f64 in both directions and both operand orders; integer values: all of 8/16-bit, "
+             "boundary alphabet otherwise; floats: every exponent (f32; f64 thorough, quick: +-140 around the bias and the extremes) x "
+             "structured mantissas x both signs, incl. zeros, subnormals, largest finite binade, infinities, NaNs; ")
+
 PROPS = {
+    "C03": {
+        "title": "comparisons order the exact values across fixed types, integers and floats; Eq/Ord/Hash within a type",
+        "stages": [{"driver": "cross"}, {"driver": "prim"}, {"driver": "crossx", "tiers": ["thorough"]}, {"driver": "primx", "tiers": ["thorough"]}],
+        "rule": CROSS_RULE + PRIM_RULE + "a state is one (layout pair, value pair); a transition observes == != < <= > >= partial_cmp (and cmp/Hash/max within a type) and compares with the ordering of the exact rationals; non-trivial = not both operands zero",
+    },
+    "C04": {
+        "title": "fixed<->fixed and fixed<->integer conversions exact with precise overflow; From / LossyFrom",
+        "stages": [{"driver": "cross"}, {"driver": "prim"}, {"driver": "crossx", "tiers": ["thorough"]}, {"driver": "primx", "tiers": ["thorough"]}],
+        "rule": CROSS_RULE + PRIM_RULE + "a transition is one conversion call (to_num/from_num entry points x plain/checked/saturating/wrapping/overflowing, From and LossyFrom wherever the impl exists, detected at compile time) compared with floor(value * 2^dst_frac) and the overflow policy",
+        "assumptions": ["From/LossyFrom are judged only for the type pairs for which an impl exists (existence itself is not specified by the property)"],
+    },
+    "C05": {
+        "title": "float conversions correctly rounded (ties to even) in both directions",
+        "stages": [{"driver": "prim"}, {"driver": "primx", "tiers": ["thorough"]}],
+        "rule": PRIM_RULE + "a transition is one float->fixed or fixed->float conversion call in one of its forms, compared with exact IEEE-754 decode / round-to-nearest-even encode done by integer manipulation",
+    },
     "C01": {
         "title": "products and quotients exactly rounded",
         "stages": [{"driver": "arith"}],
@@ -39,5 +63,9 @@ PROPS = {
 }
 
 DRIVER_KIND = {
+    "cross": "Rust; fixed x fixed conversions and comparisons on 2724 compiled layout pairs (crossx: 5952 further pairs, thorough tier)",
+    "crossx": "see cross",
+    "prim": "Rust; fixed x primitive (12 integers, bool, f32, f64) conversions and comparisons, same-type Ord/Eq/Hash; 90 layouts (primx: the other 416, thorough tier)",
+    "primx": "see prim",
     "arith": "Rust; explicit enumeration of same-type unary/binary operations of all 506 layouts against exact integer arithmetic",
 }
